@@ -28,7 +28,8 @@ package mq
 //@   ensures result == nil ==> len(data) >= 1 && uint(*v) <= 268435455
 //@   ensures len(data) == 0 ==> result != nil
 //@   ensures specVbOK(len(data), data[0], data[1], data[2], data[3]) ==> result == nil && uint(*v) == specVbValue(data[0], data[1], data[2], data[3])   #C15 #C03
-//@   ensures !specVbOK(len(data), data[0], data[1], data[2], data[3]) ==> result != nil                                                               #C15 #C09
+//@   ensures !specVbOK(len(data), data[0], data[1], data[2], data[3]) ==> result != nil                                                               #C15 #C09 #C03
+//@   ensures result == nil ==> specVbWidth(uint(*v)) <= specVbLen(data[0], data[1], data[2], data[3]) && specVbLen(data[0], data[1], data[2], data[3]) <= len(data)   #C03
 //@   loop 0:
 //@     invariant -1 <= rangeindex && rangeindex <= 3 && rangeindex < len(data)
 //@     invariant multiplier == specPow128(rangeindex + 1)
@@ -77,16 +78,22 @@ package mq
 //@   ensures result == nil && specU16(data[0], data[1]) == 0 ==> unchanged(*v)
 //@   ensures result == nil && specU16(data[0], data[1]) != 0 ==> len(*v) == int(specU16(data[0], data[1])) && fresh(*v)
 //@   ensures result == nil && specU16(data[0], data[1]) != 0 ==> len(*v) + 2 <= len(data)         #C05
+//@   ensures result == nil && specU16(data[0], data[1]) != 0 ==> forall k in 0..len(*v): (*v)[k] == data[2+k]   #C03
 
 //@ func (*rawdata).UnmarshalBinary
 //@   assigns *v
 //@   ensures result == nil && len(*v) == len(data) && fresh(*v)
+//@   ensures forall k in 0..len(data): (*v)[k] == data[k]                                  #C03
 
 //@ func (*UserProp).UnmarshalBinary
 //@   assigns *v
 //@   ensures result != nil ==> istype(result, *Malformed) && payload(result, *Malformed) != nil
 //@   ensures result == nil ==> len(data) >= 4 + len(v[0]) + len(v[1])
 //@   ensures result == nil ==> fresh(v[0]) && fresh(v[1])                                                       #C14
+//@   ensures len(data) >= 4 + int(specU16(data[0], data[1])) && len(data) >= 4 + int(specU16(data[0], data[1])) + int(specU16(data[2+int(specU16(data[0], data[1]))], data[3+int(specU16(data[0], data[1]))])) ==> result == nil   #C03
+//@   ensures result == nil ==> len(v[0]) == int(specU16(data[0], data[1])) && len(v[1]) == int(specU16(data[2+len(v[0])], data[3+len(v[0])]))   #C03
+//@   ensures result == nil ==> forall k in 0..len(v[0]): v[0][k] == data[2+k]                                   #C03
+//@   ensures result == nil ==> forall k in 0..len(v[1]): v[1][k] == data[4+len(v[0])+k]                         #C03
 
 //@ func unmarshalErr
 //@   requires istype(err, *Malformed) ==> payload(err, *Malformed) != nil
@@ -1219,7 +1226,7 @@ package mq
 //@     -- (d) an identifier that is neither in this call site's table nor User Property / Subscription Identifier is refused
 //@     latch !(haskey(fields, id) || id == 38 || id == 11) ==> b.err != nil                 #C09
 //@     -- ... and the identifier is the one byte at the cursor where this iteration started
-//@     latch b.err == nil ==> old(b.i) < len(b.data) && int(id) == int(old(b.data[b.i]))    #C09
+//@     latch b.err == nil ==> old(b.i) < len(b.data) && int(id) == int(old(b.data[b.i]))    #C09 #C03
 
 //@ func (*UserProp).UnmarshalBinary
 //@   let l1 = int(specU16(data[0], data[1]))
@@ -1307,3 +1314,426 @@ package mq
 //@ func NewPublish
 //@   inline
 //@   ensures result != nil && fresh(result) && (result.fixed & 240) == 48                   #C02
+
+// ---------------------------------------------------------------- decoders against the specification-level reader (C03)
+// R reads a frame field by field: fixed-position fields at the offsets the MQTT field tables give, then the
+// property section entry by entry. The decoder is proved to do the same, one field / one entry at a time.
+
+//@ func (*buffer).getAny
+//@   mark $pstart = old(b.i)                                                                #C03
+//@   mark $pend = b.i                                                                       #C03
+//@   let pl1 = int(specU16(b.data[old(b.i)+1], b.data[old(b.i)+2]))
+//@   let pl2 = int(specU16(b.data[old(b.i)+3+pl1], b.data[old(b.i)+4+pl1]))
+
+// buffer.get is R's primitive read: one value of the wire type of v at the cursor. The body of get is
+// verified against this contract for every wire type; the decoders are verified with get inlined.
+//@ func (*buffer).get
+//@   only-for none
+//@   requires v != nil && ival(v) != 0 && 0 <= b.i
+//@   let o = old(b.i)
+//@   let n = len(b.data)
+//@   let u1 = int(specU16(b.data[o], b.data[o+1]))
+//@   let u2 = int(specU16(b.data[o+2+u1], b.data[o+3+u1]))
+//@   assigns b.i, b.err, *payload(v, *bits), *payload(v, *Ident), *payload(v, *wbool), *payload(v, *wuint16), *payload(v, *wuint32), *payload(v, *vbint), *payload(v, *bindata), *payload(v, *rawdata), *payload(v, *UserProp), $rejected, $alloc
+//@   -- an earlier failure is final; a failing read leaves the cursor where it was
+//@   ensures old(b.err) != nil ==> b.err == old(b.err) && b.i == o                                                    #C03
+//@   ensures b.err != nil ==> b.i == o                                                                                #C03
+//@   ensures old(b.err) == nil && b.err == nil ==> o < n && o < b.i && b.i <= n                                       #C03
+//@   -- one byte
+//@   ensures old(b.err) == nil && istype(v, *bits) ==> (b.err == nil <==> o + 1 <= n)                                 #C03
+//@   ensures old(b.err) == nil && istype(v, *bits) && b.err == nil ==> b.i == o + 1 && *payload(v, *bits) == bits(b.data[o])    #C03
+//@   ensures old(b.err) == nil && istype(v, *Ident) ==> (b.err == nil <==> o + 1 <= n)                                #C03
+//@   ensures old(b.err) == nil && istype(v, *Ident) && b.err == nil ==> b.i == o + 1 && *payload(v, *Ident) == Ident(b.data[o]) #C03
+//@   -- a byte that must be 0 or 1
+//@   ensures old(b.err) == nil && istype(v, *wbool) ==> (b.err == nil <==> o + 1 <= n && b.data[o] <= 1)              #C03
+//@   ensures old(b.err) == nil && istype(v, *wbool) && b.err == nil ==> b.i == o + 1 && *payload(v, *wbool) == (b.data[o] == 1) #C03
+//@   -- two and four byte integers, big endian
+//@   ensures old(b.err) == nil && istype(v, *wuint16) ==> (b.err == nil <==> o + 2 <= n)                              #C03
+//@   ensures old(b.err) == nil && istype(v, *wuint16) && b.err == nil ==> b.i == o + 2 && *payload(v, *wuint16) == wuint16(specU16(b.data[o], b.data[o+1]))   #C03
+//@   ensures old(b.err) == nil && istype(v, *wuint32) ==> (b.err == nil <==> o + 4 <= n)                              #C03
+//@   ensures old(b.err) == nil && istype(v, *wuint32) && b.err == nil ==> b.i == o + 4 && *payload(v, *wuint32) == wuint32(specU32(b.data[o], b.data[o+1], b.data[o+2], b.data[o+3]))   #C03
+//@   -- variable byte integer
+//@   ensures old(b.err) == nil && istype(v, *vbint) ==> (b.err == nil <==> specVbOK(n - o, b.data[o], b.data[o+1], b.data[o+2], b.data[o+3]))   #C03
+//@   ensures old(b.err) == nil && istype(v, *vbint) && b.err == nil ==> uint(*payload(v, *vbint)) == specVbValue(b.data[o], b.data[o+1], b.data[o+2], b.data[o+3]) && b.i == o + specVbWidth(uint(*payload(v, *vbint)))   #C03
+//@   -- length-prefixed string or binary data; a transmitted empty value leaves the destination as it was
+//@   ensures old(b.err) == nil && istype(v, *bindata) && b.err == nil ==> o + 2 + u1 <= n                             #C03
+//@   ensures old(b.err) == nil && istype(v, *bindata) && b.err == nil && u1 != 0 ==> len(*payload(v, *bindata)) == u1 && b.i == o + 2 + u1 && fresh(*payload(v, *bindata))   #C03
+//@   ensures old(b.err) == nil && istype(v, *bindata) && b.err == nil && u1 != 0 ==> forall k in 0..u1: (*payload(v, *bindata))[k] == b.data[o+2+k]   #C03
+//@   ensures old(b.err) == nil && istype(v, *bindata) && b.err == nil && u1 == 0 ==> unchanged(*payload(v, *bindata)) && b.i == o + 2 + len(*payload(v, *bindata))   #C03
+//@   ensures old(b.err) == nil && istype(v, *bindata) && o + 2 + u1 <= n && (u1 != 0 || o + 2 + len(old(*payload(v, *bindata))) <= n) ==> b.err == nil   #C03
+//@   -- everything up to the end of the frame
+//@   ensures old(b.err) == nil && istype(v, *rawdata) ==> (b.err == nil <==> o < n)                                   #C03
+//@   ensures old(b.err) == nil && istype(v, *rawdata) && b.err == nil ==> b.i == n && len(*payload(v, *rawdata)) == n - o && fresh(*payload(v, *rawdata))   #C03
+//@   ensures old(b.err) == nil && istype(v, *rawdata) && b.err == nil ==> forall k in 0..n-o: (*payload(v, *rawdata))[k] == b.data[o+k]   #C03
+//@   -- string pair
+//@   ensures old(b.err) == nil && istype(v, *UserProp) ==> (b.err == nil <==> o + 4 <= n && o + 4 + u1 <= n && o + 4 + u1 + u2 <= n)   #C03
+//@   ensures old(b.err) == nil && istype(v, *UserProp) && b.err == nil ==> len(payload(v, *UserProp)[0]) == u1   #C03
+//@   ensures old(b.err) == nil && istype(v, *UserProp) && b.err == nil ==> len(payload(v, *UserProp)[1]) == int(specU16(b.data[o+2+len(payload(v, *UserProp)[0])], b.data[o+3+len(payload(v, *UserProp)[0])]))   #C03
+//@   ensures old(b.err) == nil && istype(v, *UserProp) && b.err == nil ==> len(payload(v, *UserProp)[1]) == u2   #C03
+//@   ensures old(b.err) == nil && istype(v, *UserProp) && b.err == nil ==> b.i == o + 4 + u1 + u2                #C03
+
+//@ func (*PubAck).UnmarshalBinary
+//@   ensures len(data) >= 2 ==> self.PacketID() == specU16(data[0], data[1])                #C03
+//@   ensures len(data) == 2 ==> result == nil && self.ReasonCode() == old(self.ReasonCode())   #C03
+//@   ensures len(data) >= 3 ==> uint8(self.ReasonCode()) == data[2]                         #C03
+//@   ensures len(data) == 3 ==> result == nil                                               #C03
+//@   ensures len(data) > 3 ==> $pstart_1 == 3                                               #C03
+
+// fixed-position fields of the other packet types (MQTT v5.0 sections 3.x.2); $pstart_k / $pend_k are the
+// cursor at which the k-th property section of the decoder starts and ends
+
+//@ func (*ConnAck).UnmarshalBinary
+//@   ensures len(data) >= 1 ==> self.SessionPresent() == ((data[0] & 1) != 0)                #C03
+//@   ensures len(data) >= 2 ==> uint8(self.ReasonCode()) == data[1]                          #C03
+//@   ensures len(data) > 2 ==> $pstart_1 == 2                                               #C03
+
+//@ func (*PubRec).UnmarshalBinary
+//@   ensures len(data) >= 2 ==> self.PacketID() == specU16(data[0], data[1])                #C03
+//@   ensures len(data) == 2 ==> result == nil && self.ReasonCode() == old(self.ReasonCode())   #C03
+//@   ensures len(data) >= 3 ==> uint8(self.ReasonCode()) == data[2]                         #C03
+//@   ensures len(data) == 3 ==> result == nil                                               #C03
+//@   ensures len(data) > 3 ==> $pstart_1 == 3                                               #C03
+
+//@ func (*PubRel).UnmarshalBinary
+//@   ensures len(data) >= 2 ==> self.PacketID() == specU16(data[0], data[1])                #C03
+//@   ensures len(data) == 2 ==> result == nil && self.ReasonCode() == old(self.ReasonCode())   #C03
+//@   ensures len(data) >= 3 ==> uint8(self.ReasonCode()) == data[2]                         #C03
+//@   ensures len(data) == 3 ==> result == nil                                               #C03
+//@   ensures len(data) > 3 ==> $pstart_1 == 3                                               #C03
+
+//@ func (*PubComp).UnmarshalBinary
+//@   ensures len(data) >= 2 ==> self.PacketID() == specU16(data[0], data[1])                #C03
+//@   ensures len(data) == 2 ==> result == nil && self.ReasonCode() == old(self.ReasonCode())   #C03
+//@   ensures len(data) >= 3 ==> uint8(self.ReasonCode()) == data[2]                         #C03
+//@   ensures len(data) == 3 ==> result == nil                                               #C03
+//@   ensures len(data) > 3 ==> $pstart_1 == 3                                               #C03
+
+//@ func (*Subscribe).UnmarshalBinary
+//@   ensures len(data) >= 2 ==> self.PacketID() == specU16(data[0], data[1])                #C03
+//@   ensures len(data) > 2 ==> $pstart_1 == 2                                               #C03
+
+//@ func (*SubAck).UnmarshalBinary
+//@   ensures len(data) >= 2 ==> self.PacketID() == specU16(data[0], data[1])                #C03
+//@   ensures len(data) > 2 ==> $pstart_1 == 2                                               #C03
+
+//@ func (*Unsubscribe).UnmarshalBinary
+//@   ensures len(data) >= 2 ==> self.PacketID() == specU16(data[0], data[1])                #C03
+//@   ensures len(data) > 2 ==> $pstart_1 == 2                                               #C03
+
+//@ func (*UnsubAck).UnmarshalBinary
+//@   ensures len(data) >= 2 ==> self.PacketID() == specU16(data[0], data[1])                #C03
+//@   ensures len(data) > 2 ==> $pstart_1 == 2                                               #C03
+
+//@ func (*Disconnect).UnmarshalBinary
+//@   ensures len(data) >= 1 ==> uint8(self.ReasonCode()) == data[0]                          #C03
+//@   ensures len(data) == 1 ==> result == nil                                               #C03
+//@   ensures len(data) > 1 ==> $pstart_1 == 1                                               #C03
+
+//@ func (*Auth).UnmarshalBinary
+//@   ensures len(data) >= 1 ==> uint8(self.ReasonCode()) == data[0]                          #C03
+//@   ensures len(data) == 1 ==> result == nil                                               #C03
+//@   ensures len(data) > 1 ==> $pstart_1 == 1                                               #C03
+
+//@ func (*PingReq).UnmarshalBinary
+//@   ensures result == nil                                                                  #C03
+//@ func (*PingResp).UnmarshalBinary
+//@   ensures result == nil                                                                  #C03
+
+// PUBLISH: where the property section starts, and the payload = the rest of the frame after it (topic name and
+// packet identifier are decoded before the property loop; their values after it are not under contract)
+//@ func (*Publish).UnmarshalBinary
+//@   let lt = int(specU16(data[0], data[1]))
+//@   ensures result == nil && lt != 0 && len(data) > $pend_1 ==> len(self.Payload()) == len(data) - $pend_1   #C03
+//@   ensures result == nil && lt != 0 && len(data) > $pend_1 ==> forall k in 0..len(data)-$pend_1: self.Payload()[k] == data[$pend_1+k]   #C03
+
+// CONNECT: the fixed-position fields around its two property sections are not under contract (their
+// obligations did not discharge within the time limit); only the steps of the first property section are.
+
+// BEGIN generated by /verif/gen_c03.py (do not edit by hand)
+
+//@ func (*Connect).UnmarshalBinary
+//@   within (*buffer).getAny@1 loop 0:
+//@     -- a user property (0x26): identifier, two length-prefixed strings (pl1, pl2: their lengths, lets of getAny)
+//@     latch up_cur:: b.err == nil && id == 38 && !haskey(fields, id) ==> b.i == old(b.i) + 5 + pl1 + pl2   #C03
+//@     -- a subscription identifier (0x0b): identifier, variable byte integer; the cursor moves by the minimal width of the value
+//@     latch sid_acc:: id == 11 && !haskey(fields, id) && specVbOK(len(b.data) - old(b.i) - 1, b.data[old(b.i)+1], b.data[old(b.i)+2], b.data[old(b.i)+3], b.data[old(b.i)+4]) ==> b.err == nil   #C03
+//@     latch sid_cur:: b.err == nil && id == 11 && !haskey(fields, id) ==> b.i == old(b.i) + 1 + specVbWidth(specVbValue(b.data[old(b.i)+1], b.data[old(b.i)+2], b.data[old(b.i)+3], b.data[old(b.i)+4]))   #C03
+//@     latch val_x11:: b.err == nil && id == 17 ==> self.SessionExpiryInterval() == specU32(b.data[old(b.i)+1], b.data[old(b.i)+2], b.data[old(b.i)+3], b.data[old(b.i)+4])   #C03
+//@     latch has_x11:: id == 17 ==> haskey(fields, id)   #C03
+//@     latch cur_x11:: b.err == nil && id == 17 ==> b.i == old(b.i) + 5   #C03
+//@     latch acc_x11:: id == 17 && old(b.i) + 5 <= len(b.data) ==> b.err == nil   #C03
+//@     latch val_x21:: b.err == nil && id == 33 ==> self.ReceiveMax() == specU16(b.data[old(b.i)+1], b.data[old(b.i)+2])   #C03
+//@     latch has_x21:: id == 33 ==> haskey(fields, id)   #C03
+//@     latch cur_x21:: b.err == nil && id == 33 ==> b.i == old(b.i) + 3   #C03
+//@     latch acc_x21:: id == 33 && old(b.i) + 3 <= len(b.data) ==> b.err == nil   #C03
+//@     latch val_x27:: b.err == nil && id == 39 ==> self.MaxPacketSize() == specU32(b.data[old(b.i)+1], b.data[old(b.i)+2], b.data[old(b.i)+3], b.data[old(b.i)+4])   #C03
+//@     latch has_x27:: id == 39 ==> haskey(fields, id)   #C03
+//@     latch cur_x27:: b.err == nil && id == 39 ==> b.i == old(b.i) + 5   #C03
+//@     latch acc_x27:: id == 39 && old(b.i) + 5 <= len(b.data) ==> b.err == nil   #C03
+//@     latch val_x22:: b.err == nil && id == 34 ==> self.TopicAliasMax() == specU16(b.data[old(b.i)+1], b.data[old(b.i)+2])   #C03
+//@     latch has_x22:: id == 34 ==> haskey(fields, id)   #C03
+//@     latch cur_x22:: b.err == nil && id == 34 ==> b.i == old(b.i) + 3   #C03
+//@     latch acc_x22:: id == 34 && old(b.i) + 3 <= len(b.data) ==> b.err == nil   #C03
+//@     latch val_x19:: b.err == nil && id == 25 ==> self.RequestResponseInfo() == (b.data[old(b.i)+1] == 1)   #C03
+//@     latch has_x19:: id == 25 ==> haskey(fields, id)   #C03
+//@     latch cur_x19:: b.err == nil && id == 25 ==> b.i == old(b.i) + 2   #C03
+//@     latch acc_x19:: id == 25 && old(b.i) + 2 <= len(b.data) && b.data[old(b.i)+1] <= 1 ==> b.err == nil   #C03
+//@     latch val_x17:: b.err == nil && id == 23 ==> self.RequestProblemInfo() == (b.data[old(b.i)+1] == 1)   #C03
+//@     latch has_x17:: id == 23 ==> haskey(fields, id)   #C03
+//@     latch cur_x17:: b.err == nil && id == 23 ==> b.i == old(b.i) + 2   #C03
+//@     latch acc_x17:: id == 23 && old(b.i) + 2 <= len(b.data) && b.data[old(b.i)+1] <= 1 ==> b.err == nil   #C03
+//@     latch len_x15:: b.err == nil && id == 21 && specU16(b.data[old(b.i)+1], b.data[old(b.i)+2]) != 0 ==> len(self.AuthMethod()) == int(specU16(b.data[old(b.i)+1], b.data[old(b.i)+2]))   #C03
+//@     latch val_x15:: b.err == nil && id == 21 && specU16(b.data[old(b.i)+1], b.data[old(b.i)+2]) != 0 ==> forall k in 0..int(specU16(b.data[old(b.i)+1], b.data[old(b.i)+2])): self.AuthMethod()[k] == b.data[old(b.i)+3+k]   #C03
+//@     latch nul_x15:: b.err == nil && id == 21 && specU16(b.data[old(b.i)+1], b.data[old(b.i)+2]) == 0 ==> len(self.AuthMethod()) == len(old(self.AuthMethod()))   #C03
+//@     latch has_x15:: id == 21 ==> haskey(fields, id)   #C03
+//@     latch cur_x15:: b.err == nil && id == 21 && (specU16(b.data[old(b.i)+1], b.data[old(b.i)+2]) != 0 || len(old(self.AuthMethod())) == 0) ==> b.i == old(b.i) + 3 + int(specU16(b.data[old(b.i)+1], b.data[old(b.i)+2]))   #C03
+//@     latch len_x16:: b.err == nil && id == 22 && specU16(b.data[old(b.i)+1], b.data[old(b.i)+2]) != 0 ==> len(self.AuthData()) == int(specU16(b.data[old(b.i)+1], b.data[old(b.i)+2]))   #C03
+//@     latch val_x16:: b.err == nil && id == 22 && specU16(b.data[old(b.i)+1], b.data[old(b.i)+2]) != 0 ==> forall k in 0..int(specU16(b.data[old(b.i)+1], b.data[old(b.i)+2])): self.AuthData()[k] == b.data[old(b.i)+3+k]   #C03
+//@     latch nul_x16:: b.err == nil && id == 22 && specU16(b.data[old(b.i)+1], b.data[old(b.i)+2]) == 0 ==> len(self.AuthData()) == len(old(self.AuthData()))   #C03
+//@     latch has_x16:: id == 22 ==> haskey(fields, id)   #C03
+//@     latch cur_x16:: b.err == nil && id == 22 && (specU16(b.data[old(b.i)+1], b.data[old(b.i)+2]) != 0 || len(old(self.AuthData())) == 0) ==> b.i == old(b.i) + 3 + int(specU16(b.data[old(b.i)+1], b.data[old(b.i)+2]))   #C03
+
+//@ func (*ConnAck).UnmarshalBinary
+//@   within (*buffer).getAny loop 0:
+//@     -- a user property (0x26): identifier, two length-prefixed strings (pl1, pl2: their lengths, lets of getAny)
+//@     latch up_cur:: b.err == nil && id == 38 && !haskey(fields, id) ==> b.i == old(b.i) + 5 + pl1 + pl2   #C03
+//@     -- a subscription identifier (0x0b): identifier, variable byte integer; the cursor moves by the minimal width of the value
+//@     latch sid_acc:: id == 11 && !haskey(fields, id) && specVbOK(len(b.data) - old(b.i) - 1, b.data[old(b.i)+1], b.data[old(b.i)+2], b.data[old(b.i)+3], b.data[old(b.i)+4]) ==> b.err == nil   #C03
+//@     latch sid_cur:: b.err == nil && id == 11 && !haskey(fields, id) ==> b.i == old(b.i) + 1 + specVbWidth(specVbValue(b.data[old(b.i)+1], b.data[old(b.i)+2], b.data[old(b.i)+3], b.data[old(b.i)+4]))   #C03
+//@     latch val_x11:: b.err == nil && id == 17 ==> self.SessionExpiryInterval() == specU32(b.data[old(b.i)+1], b.data[old(b.i)+2], b.data[old(b.i)+3], b.data[old(b.i)+4])   #C03
+//@     latch has_x11:: id == 17 ==> haskey(fields, id)   #C03
+//@     latch cur_x11:: b.err == nil && id == 17 ==> b.i == old(b.i) + 5   #C03
+//@     latch acc_x11:: id == 17 && old(b.i) + 5 <= len(b.data) ==> b.err == nil   #C03
+//@     latch val_x21:: b.err == nil && id == 33 ==> self.ReceiveMax() == specU16(b.data[old(b.i)+1], b.data[old(b.i)+2])   #C03
+//@     latch has_x21:: id == 33 ==> haskey(fields, id)   #C03
+//@     latch cur_x21:: b.err == nil && id == 33 ==> b.i == old(b.i) + 3   #C03
+//@     latch acc_x21:: id == 33 && old(b.i) + 3 <= len(b.data) ==> b.err == nil   #C03
+//@     latch val_x24:: b.err == nil && id == 36 ==> uint8(self.MaxQoS()) == b.data[old(b.i)+1]   #C03
+//@     latch has_x24:: id == 36 ==> haskey(fields, id)   #C03
+//@     latch cur_x24:: b.err == nil && id == 36 ==> b.i == old(b.i) + 2   #C03
+//@     latch acc_x24:: id == 36 && old(b.i) + 2 <= len(b.data) ==> b.err == nil   #C03
+//@     latch val_x25:: b.err == nil && id == 37 ==> self.RetainAvailable() == (b.data[old(b.i)+1] == 1)   #C03
+//@     latch has_x25:: id == 37 ==> haskey(fields, id)   #C03
+//@     latch cur_x25:: b.err == nil && id == 37 ==> b.i == old(b.i) + 2   #C03
+//@     latch acc_x25:: id == 37 && old(b.i) + 2 <= len(b.data) && b.data[old(b.i)+1] <= 1 ==> b.err == nil   #C03
+//@     latch val_x27:: b.err == nil && id == 39 ==> self.MaxPacketSize() == specU32(b.data[old(b.i)+1], b.data[old(b.i)+2], b.data[old(b.i)+3], b.data[old(b.i)+4])   #C03
+//@     latch has_x27:: id == 39 ==> haskey(fields, id)   #C03
+//@     latch cur_x27:: b.err == nil && id == 39 ==> b.i == old(b.i) + 5   #C03
+//@     latch acc_x27:: id == 39 && old(b.i) + 5 <= len(b.data) ==> b.err == nil   #C03
+//@     latch len_x12:: b.err == nil && id == 18 && specU16(b.data[old(b.i)+1], b.data[old(b.i)+2]) != 0 ==> len(self.AssignedClientID()) == int(specU16(b.data[old(b.i)+1], b.data[old(b.i)+2]))   #C03
+//@     latch val_x12:: b.err == nil && id == 18 && specU16(b.data[old(b.i)+1], b.data[old(b.i)+2]) != 0 ==> forall k in 0..int(specU16(b.data[old(b.i)+1], b.data[old(b.i)+2])): self.AssignedClientID()[k] == b.data[old(b.i)+3+k]   #C03
+//@     latch nul_x12:: b.err == nil && id == 18 && specU16(b.data[old(b.i)+1], b.data[old(b.i)+2]) == 0 ==> len(self.AssignedClientID()) == len(old(self.AssignedClientID()))   #C03
+//@     latch has_x12:: id == 18 ==> haskey(fields, id)   #C03
+//@     latch cur_x12:: b.err == nil && id == 18 && (specU16(b.data[old(b.i)+1], b.data[old(b.i)+2]) != 0 || len(old(self.AssignedClientID())) == 0) ==> b.i == old(b.i) + 3 + int(specU16(b.data[old(b.i)+1], b.data[old(b.i)+2]))   #C03
+//@     latch val_x22:: b.err == nil && id == 34 ==> self.TopicAliasMax() == specU16(b.data[old(b.i)+1], b.data[old(b.i)+2])   #C03
+//@     latch has_x22:: id == 34 ==> haskey(fields, id)   #C03
+//@     latch cur_x22:: b.err == nil && id == 34 ==> b.i == old(b.i) + 3   #C03
+//@     latch acc_x22:: id == 34 && old(b.i) + 3 <= len(b.data) ==> b.err == nil   #C03
+//@     latch len_x1f:: b.err == nil && id == 31 && specU16(b.data[old(b.i)+1], b.data[old(b.i)+2]) != 0 ==> len(self.ReasonString()) == int(specU16(b.data[old(b.i)+1], b.data[old(b.i)+2]))   #C03
+//@     latch val_x1f:: b.err == nil && id == 31 && specU16(b.data[old(b.i)+1], b.data[old(b.i)+2]) != 0 ==> forall k in 0..int(specU16(b.data[old(b.i)+1], b.data[old(b.i)+2])): self.ReasonString()[k] == b.data[old(b.i)+3+k]   #C03
+//@     latch nul_x1f:: b.err == nil && id == 31 && specU16(b.data[old(b.i)+1], b.data[old(b.i)+2]) == 0 ==> len(self.ReasonString()) == len(old(self.ReasonString()))   #C03
+//@     latch has_x1f:: id == 31 ==> haskey(fields, id)   #C03
+//@     latch cur_x1f:: b.err == nil && id == 31 && (specU16(b.data[old(b.i)+1], b.data[old(b.i)+2]) != 0 || len(old(self.ReasonString())) == 0) ==> b.i == old(b.i) + 3 + int(specU16(b.data[old(b.i)+1], b.data[old(b.i)+2]))   #C03
+//@     latch val_x28:: b.err == nil && id == 40 ==> self.WildcardSubAvailable() == (b.data[old(b.i)+1] == 1)   #C03
+//@     latch has_x28:: id == 40 ==> haskey(fields, id)   #C03
+//@     latch cur_x28:: b.err == nil && id == 40 ==> b.i == old(b.i) + 2   #C03
+//@     latch acc_x28:: id == 40 && old(b.i) + 2 <= len(b.data) && b.data[old(b.i)+1] <= 1 ==> b.err == nil   #C03
+//@     latch val_x29:: b.err == nil && id == 41 ==> self.SubIdentifiersAvailable() == (b.data[old(b.i)+1] == 1)   #C03
+//@     latch has_x29:: id == 41 ==> haskey(fields, id)   #C03
+//@     latch cur_x29:: b.err == nil && id == 41 ==> b.i == old(b.i) + 2   #C03
+//@     latch acc_x29:: id == 41 && old(b.i) + 2 <= len(b.data) && b.data[old(b.i)+1] <= 1 ==> b.err == nil   #C03
+//@     latch val_x2a:: b.err == nil && id == 42 ==> self.SharedSubAvailable() == (b.data[old(b.i)+1] == 1)   #C03
+//@     latch has_x2a:: id == 42 ==> haskey(fields, id)   #C03
+//@     latch cur_x2a:: b.err == nil && id == 42 ==> b.i == old(b.i) + 2   #C03
+//@     latch acc_x2a:: id == 42 && old(b.i) + 2 <= len(b.data) && b.data[old(b.i)+1] <= 1 ==> b.err == nil   #C03
+//@     latch val_x13:: b.err == nil && id == 19 ==> self.ServerKeepAlive() == specU16(b.data[old(b.i)+1], b.data[old(b.i)+2])   #C03
+//@     latch has_x13:: id == 19 ==> haskey(fields, id)   #C03
+//@     latch cur_x13:: b.err == nil && id == 19 ==> b.i == old(b.i) + 3   #C03
+//@     latch acc_x13:: id == 19 && old(b.i) + 3 <= len(b.data) ==> b.err == nil   #C03
+//@     latch len_x1a:: b.err == nil && id == 26 && specU16(b.data[old(b.i)+1], b.data[old(b.i)+2]) != 0 ==> len(self.ResponseInformation()) == int(specU16(b.data[old(b.i)+1], b.data[old(b.i)+2]))   #C03
+//@     latch val_x1a:: b.err == nil && id == 26 && specU16(b.data[old(b.i)+1], b.data[old(b.i)+2]) != 0 ==> forall k in 0..int(specU16(b.data[old(b.i)+1], b.data[old(b.i)+2])): self.ResponseInformation()[k] == b.data[old(b.i)+3+k]   #C03
+//@     latch nul_x1a:: b.err == nil && id == 26 && specU16(b.data[old(b.i)+1], b.data[old(b.i)+2]) == 0 ==> len(self.ResponseInformation()) == len(old(self.ResponseInformation()))   #C03
+//@     latch has_x1a:: id == 26 ==> haskey(fields, id)   #C03
+//@     latch cur_x1a:: b.err == nil && id == 26 && (specU16(b.data[old(b.i)+1], b.data[old(b.i)+2]) != 0 || len(old(self.ResponseInformation())) == 0) ==> b.i == old(b.i) + 3 + int(specU16(b.data[old(b.i)+1], b.data[old(b.i)+2]))   #C03
+//@     latch len_x1c:: b.err == nil && id == 28 && specU16(b.data[old(b.i)+1], b.data[old(b.i)+2]) != 0 ==> len(self.ServerReference()) == int(specU16(b.data[old(b.i)+1], b.data[old(b.i)+2]))   #C03
+//@     latch val_x1c:: b.err == nil && id == 28 && specU16(b.data[old(b.i)+1], b.data[old(b.i)+2]) != 0 ==> forall k in 0..int(specU16(b.data[old(b.i)+1], b.data[old(b.i)+2])): self.ServerReference()[k] == b.data[old(b.i)+3+k]   #C03
+//@     latch nul_x1c:: b.err == nil && id == 28 && specU16(b.data[old(b.i)+1], b.data[old(b.i)+2]) == 0 ==> len(self.ServerReference()) == len(old(self.ServerReference()))   #C03
+//@     latch has_x1c:: id == 28 ==> haskey(fields, id)   #C03
+//@     latch cur_x1c:: b.err == nil && id == 28 && (specU16(b.data[old(b.i)+1], b.data[old(b.i)+2]) != 0 || len(old(self.ServerReference())) == 0) ==> b.i == old(b.i) + 3 + int(specU16(b.data[old(b.i)+1], b.data[old(b.i)+2]))   #C03
+//@     latch len_x15:: b.err == nil && id == 21 && specU16(b.data[old(b.i)+1], b.data[old(b.i)+2]) != 0 ==> len(self.AuthMethod()) == int(specU16(b.data[old(b.i)+1], b.data[old(b.i)+2]))   #C03
+//@     latch val_x15:: b.err == nil && id == 21 && specU16(b.data[old(b.i)+1], b.data[old(b.i)+2]) != 0 ==> forall k in 0..int(specU16(b.data[old(b.i)+1], b.data[old(b.i)+2])): self.AuthMethod()[k] == b.data[old(b.i)+3+k]   #C03
+//@     latch nul_x15:: b.err == nil && id == 21 && specU16(b.data[old(b.i)+1], b.data[old(b.i)+2]) == 0 ==> len(self.AuthMethod()) == len(old(self.AuthMethod()))   #C03
+//@     latch has_x15:: id == 21 ==> haskey(fields, id)   #C03
+//@     latch cur_x15:: b.err == nil && id == 21 && (specU16(b.data[old(b.i)+1], b.data[old(b.i)+2]) != 0 || len(old(self.AuthMethod())) == 0) ==> b.i == old(b.i) + 3 + int(specU16(b.data[old(b.i)+1], b.data[old(b.i)+2]))   #C03
+//@     latch len_x16:: b.err == nil && id == 22 && specU16(b.data[old(b.i)+1], b.data[old(b.i)+2]) != 0 ==> len(self.AuthData()) == int(specU16(b.data[old(b.i)+1], b.data[old(b.i)+2]))   #C03
+//@     latch val_x16:: b.err == nil && id == 22 && specU16(b.data[old(b.i)+1], b.data[old(b.i)+2]) != 0 ==> forall k in 0..int(specU16(b.data[old(b.i)+1], b.data[old(b.i)+2])): self.AuthData()[k] == b.data[old(b.i)+3+k]   #C03
+//@     latch nul_x16:: b.err == nil && id == 22 && specU16(b.data[old(b.i)+1], b.data[old(b.i)+2]) == 0 ==> len(self.AuthData()) == len(old(self.AuthData()))   #C03
+//@     latch has_x16:: id == 22 ==> haskey(fields, id)   #C03
+//@     latch cur_x16:: b.err == nil && id == 22 && (specU16(b.data[old(b.i)+1], b.data[old(b.i)+2]) != 0 || len(old(self.AuthData())) == 0) ==> b.i == old(b.i) + 3 + int(specU16(b.data[old(b.i)+1], b.data[old(b.i)+2]))   #C03
+
+//@ func (*Publish).UnmarshalBinary
+//@   within (*buffer).getAny loop 0:
+//@     -- a user property (0x26): identifier, two length-prefixed strings (pl1, pl2: their lengths, lets of getAny)
+//@     latch up_cur:: b.err == nil && id == 38 && !haskey(fields, id) ==> b.i == old(b.i) + 5 + pl1 + pl2   #C03
+//@     -- a subscription identifier (0x0b): identifier, variable byte integer; the cursor moves by the minimal width of the value
+//@     latch sid_acc:: id == 11 && !haskey(fields, id) && specVbOK(len(b.data) - old(b.i) - 1, b.data[old(b.i)+1], b.data[old(b.i)+2], b.data[old(b.i)+3], b.data[old(b.i)+4]) ==> b.err == nil   #C03
+//@     latch sid_cur:: b.err == nil && id == 11 && !haskey(fields, id) ==> b.i == old(b.i) + 1 + specVbWidth(specVbValue(b.data[old(b.i)+1], b.data[old(b.i)+2], b.data[old(b.i)+3], b.data[old(b.i)+4]))   #C03
+//@     latch val_x01:: b.err == nil && id == 1 ==> self.PayloadFormat() == (b.data[old(b.i)+1] == 1)   #C03
+//@     latch has_x01:: id == 1 ==> haskey(fields, id)   #C03
+//@     latch cur_x01:: b.err == nil && id == 1 ==> b.i == old(b.i) + 2   #C03
+//@     latch acc_x01:: id == 1 && old(b.i) + 2 <= len(b.data) && b.data[old(b.i)+1] <= 1 ==> b.err == nil   #C03
+//@     latch val_x02:: b.err == nil && id == 2 ==> self.MessageExpiryInterval() == specU32(b.data[old(b.i)+1], b.data[old(b.i)+2], b.data[old(b.i)+3], b.data[old(b.i)+4])   #C03
+//@     latch has_x02:: id == 2 ==> haskey(fields, id)   #C03
+//@     latch cur_x02:: b.err == nil && id == 2 ==> b.i == old(b.i) + 5   #C03
+//@     latch acc_x02:: id == 2 && old(b.i) + 5 <= len(b.data) ==> b.err == nil   #C03
+//@     latch val_x23:: b.err == nil && id == 35 ==> self.TopicAlias() == specU16(b.data[old(b.i)+1], b.data[old(b.i)+2])   #C03
+//@     latch has_x23:: id == 35 ==> haskey(fields, id)   #C03
+//@     latch cur_x23:: b.err == nil && id == 35 ==> b.i == old(b.i) + 3   #C03
+//@     latch acc_x23:: id == 35 && old(b.i) + 3 <= len(b.data) ==> b.err == nil   #C03
+//@     latch len_x08:: b.err == nil && id == 8 && specU16(b.data[old(b.i)+1], b.data[old(b.i)+2]) != 0 ==> len(self.ResponseTopic()) == int(specU16(b.data[old(b.i)+1], b.data[old(b.i)+2]))   #C03
+//@     latch val_x08:: b.err == nil && id == 8 && specU16(b.data[old(b.i)+1], b.data[old(b.i)+2]) != 0 ==> forall k in 0..int(specU16(b.data[old(b.i)+1], b.data[old(b.i)+2])): self.ResponseTopic()[k] == b.data[old(b.i)+3+k]   #C03
+//@     latch nul_x08:: b.err == nil && id == 8 && specU16(b.data[old(b.i)+1], b.data[old(b.i)+2]) == 0 ==> len(self.ResponseTopic()) == len(old(self.ResponseTopic()))   #C03
+//@     latch has_x08:: id == 8 ==> haskey(fields, id)   #C03
+//@     latch cur_x08:: b.err == nil && id == 8 && (specU16(b.data[old(b.i)+1], b.data[old(b.i)+2]) != 0 || len(old(self.ResponseTopic())) == 0) ==> b.i == old(b.i) + 3 + int(specU16(b.data[old(b.i)+1], b.data[old(b.i)+2]))   #C03
+//@     latch len_x09:: b.err == nil && id == 9 && specU16(b.data[old(b.i)+1], b.data[old(b.i)+2]) != 0 ==> len(self.CorrelationData()) == int(specU16(b.data[old(b.i)+1], b.data[old(b.i)+2]))   #C03
+//@     latch val_x09:: b.err == nil && id == 9 && specU16(b.data[old(b.i)+1], b.data[old(b.i)+2]) != 0 ==> forall k in 0..int(specU16(b.data[old(b.i)+1], b.data[old(b.i)+2])): self.CorrelationData()[k] == b.data[old(b.i)+3+k]   #C03
+//@     latch nul_x09:: b.err == nil && id == 9 && specU16(b.data[old(b.i)+1], b.data[old(b.i)+2]) == 0 ==> len(self.CorrelationData()) == len(old(self.CorrelationData()))   #C03
+//@     latch has_x09:: id == 9 ==> haskey(fields, id)   #C03
+//@     latch cur_x09:: b.err == nil && id == 9 && (specU16(b.data[old(b.i)+1], b.data[old(b.i)+2]) != 0 || len(old(self.CorrelationData())) == 0) ==> b.i == old(b.i) + 3 + int(specU16(b.data[old(b.i)+1], b.data[old(b.i)+2]))   #C03
+//@     latch len_x03:: b.err == nil && id == 3 && specU16(b.data[old(b.i)+1], b.data[old(b.i)+2]) != 0 ==> len(self.ContentType()) == int(specU16(b.data[old(b.i)+1], b.data[old(b.i)+2]))   #C03
+//@     latch val_x03:: b.err == nil && id == 3 && specU16(b.data[old(b.i)+1], b.data[old(b.i)+2]) != 0 ==> forall k in 0..int(specU16(b.data[old(b.i)+1], b.data[old(b.i)+2])): self.ContentType()[k] == b.data[old(b.i)+3+k]   #C03
+//@     latch nul_x03:: b.err == nil && id == 3 && specU16(b.data[old(b.i)+1], b.data[old(b.i)+2]) == 0 ==> len(self.ContentType()) == len(old(self.ContentType()))   #C03
+//@     latch has_x03:: id == 3 ==> haskey(fields, id)   #C03
+//@     latch cur_x03:: b.err == nil && id == 3 && (specU16(b.data[old(b.i)+1], b.data[old(b.i)+2]) != 0 || len(old(self.ContentType())) == 0) ==> b.i == old(b.i) + 3 + int(specU16(b.data[old(b.i)+1], b.data[old(b.i)+2]))   #C03
+
+//@ func (*PubAck).UnmarshalBinary
+//@   within (*buffer).getAny loop 0:
+//@     -- a user property (0x26): identifier, two length-prefixed strings (pl1, pl2: their lengths, lets of getAny)
+//@     latch up_cur:: b.err == nil && id == 38 && !haskey(fields, id) ==> b.i == old(b.i) + 5 + pl1 + pl2   #C03
+//@     -- a subscription identifier (0x0b): identifier, variable byte integer; the cursor moves by the minimal width of the value
+//@     latch sid_acc:: id == 11 && !haskey(fields, id) && specVbOK(len(b.data) - old(b.i) - 1, b.data[old(b.i)+1], b.data[old(b.i)+2], b.data[old(b.i)+3], b.data[old(b.i)+4]) ==> b.err == nil   #C03
+//@     latch sid_cur:: b.err == nil && id == 11 && !haskey(fields, id) ==> b.i == old(b.i) + 1 + specVbWidth(specVbValue(b.data[old(b.i)+1], b.data[old(b.i)+2], b.data[old(b.i)+3], b.data[old(b.i)+4]))   #C03
+//@     latch len_x1f:: b.err == nil && id == 31 && specU16(b.data[old(b.i)+1], b.data[old(b.i)+2]) != 0 ==> len(self.ReasonString()) == int(specU16(b.data[old(b.i)+1], b.data[old(b.i)+2]))   #C03
+//@     latch val_x1f:: b.err == nil && id == 31 && specU16(b.data[old(b.i)+1], b.data[old(b.i)+2]) != 0 ==> forall k in 0..int(specU16(b.data[old(b.i)+1], b.data[old(b.i)+2])): self.ReasonString()[k] == b.data[old(b.i)+3+k]   #C03
+//@     latch nul_x1f:: b.err == nil && id == 31 && specU16(b.data[old(b.i)+1], b.data[old(b.i)+2]) == 0 ==> len(self.ReasonString()) == len(old(self.ReasonString()))   #C03
+//@     latch has_x1f:: id == 31 ==> haskey(fields, id)   #C03
+//@     latch cur_x1f:: b.err == nil && id == 31 && (specU16(b.data[old(b.i)+1], b.data[old(b.i)+2]) != 0 || len(old(self.ReasonString())) == 0) ==> b.i == old(b.i) + 3 + int(specU16(b.data[old(b.i)+1], b.data[old(b.i)+2]))   #C03
+
+//@ func (*PubRec).UnmarshalBinary
+//@   within (*buffer).getAny loop 0:
+//@     -- a user property (0x26): identifier, two length-prefixed strings (pl1, pl2: their lengths, lets of getAny)
+//@     latch up_cur:: b.err == nil && id == 38 && !haskey(fields, id) ==> b.i == old(b.i) + 5 + pl1 + pl2   #C03
+//@     -- a subscription identifier (0x0b): identifier, variable byte integer; the cursor moves by the minimal width of the value
+//@     latch sid_acc:: id == 11 && !haskey(fields, id) && specVbOK(len(b.data) - old(b.i) - 1, b.data[old(b.i)+1], b.data[old(b.i)+2], b.data[old(b.i)+3], b.data[old(b.i)+4]) ==> b.err == nil   #C03
+//@     latch sid_cur:: b.err == nil && id == 11 && !haskey(fields, id) ==> b.i == old(b.i) + 1 + specVbWidth(specVbValue(b.data[old(b.i)+1], b.data[old(b.i)+2], b.data[old(b.i)+3], b.data[old(b.i)+4]))   #C03
+//@     latch len_x1f:: b.err == nil && id == 31 && specU16(b.data[old(b.i)+1], b.data[old(b.i)+2]) != 0 ==> len(self.ReasonString()) == int(specU16(b.data[old(b.i)+1], b.data[old(b.i)+2]))   #C03
+//@     latch val_x1f:: b.err == nil && id == 31 && specU16(b.data[old(b.i)+1], b.data[old(b.i)+2]) != 0 ==> forall k in 0..int(specU16(b.data[old(b.i)+1], b.data[old(b.i)+2])): self.ReasonString()[k] == b.data[old(b.i)+3+k]   #C03
+//@     latch nul_x1f:: b.err == nil && id == 31 && specU16(b.data[old(b.i)+1], b.data[old(b.i)+2]) == 0 ==> len(self.ReasonString()) == len(old(self.ReasonString()))   #C03
+//@     latch has_x1f:: id == 31 ==> haskey(fields, id)   #C03
+//@     latch cur_x1f:: b.err == nil && id == 31 && (specU16(b.data[old(b.i)+1], b.data[old(b.i)+2]) != 0 || len(old(self.ReasonString())) == 0) ==> b.i == old(b.i) + 3 + int(specU16(b.data[old(b.i)+1], b.data[old(b.i)+2]))   #C03
+
+//@ func (*PubRel).UnmarshalBinary
+//@   within (*buffer).getAny loop 0:
+//@     -- a user property (0x26): identifier, two length-prefixed strings (pl1, pl2: their lengths, lets of getAny)
+//@     latch up_cur:: b.err == nil && id == 38 && !haskey(fields, id) ==> b.i == old(b.i) + 5 + pl1 + pl2   #C03
+//@     -- a subscription identifier (0x0b): identifier, variable byte integer; the cursor moves by the minimal width of the value
+//@     latch sid_acc:: id == 11 && !haskey(fields, id) && specVbOK(len(b.data) - old(b.i) - 1, b.data[old(b.i)+1], b.data[old(b.i)+2], b.data[old(b.i)+3], b.data[old(b.i)+4]) ==> b.err == nil   #C03
+//@     latch sid_cur:: b.err == nil && id == 11 && !haskey(fields, id) ==> b.i == old(b.i) + 1 + specVbWidth(specVbValue(b.data[old(b.i)+1], b.data[old(b.i)+2], b.data[old(b.i)+3], b.data[old(b.i)+4]))   #C03
+//@     latch len_x1f:: b.err == nil && id == 31 && specU16(b.data[old(b.i)+1], b.data[old(b.i)+2]) != 0 ==> len(self.ReasonString()) == int(specU16(b.data[old(b.i)+1], b.data[old(b.i)+2]))   #C03
+//@     latch val_x1f:: b.err == nil && id == 31 && specU16(b.data[old(b.i)+1], b.data[old(b.i)+2]) != 0 ==> forall k in 0..int(specU16(b.data[old(b.i)+1], b.data[old(b.i)+2])): self.ReasonString()[k] == b.data[old(b.i)+3+k]   #C03
+//@     latch nul_x1f:: b.err == nil && id == 31 && specU16(b.data[old(b.i)+1], b.data[old(b.i)+2]) == 0 ==> len(self.ReasonString()) == len(old(self.ReasonString()))   #C03
+//@     latch has_x1f:: id == 31 ==> haskey(fields, id)   #C03
+//@     latch cur_x1f:: b.err == nil && id == 31 && (specU16(b.data[old(b.i)+1], b.data[old(b.i)+2]) != 0 || len(old(self.ReasonString())) == 0) ==> b.i == old(b.i) + 3 + int(specU16(b.data[old(b.i)+1], b.data[old(b.i)+2]))   #C03
+
+//@ func (*PubComp).UnmarshalBinary
+//@   within (*buffer).getAny loop 0:
+//@     -- a user property (0x26): identifier, two length-prefixed strings (pl1, pl2: their lengths, lets of getAny)
+//@     latch up_cur:: b.err == nil && id == 38 && !haskey(fields, id) ==> b.i == old(b.i) + 5 + pl1 + pl2   #C03
+//@     -- a subscription identifier (0x0b): identifier, variable byte integer; the cursor moves by the minimal width of the value
+//@     latch sid_acc:: id == 11 && !haskey(fields, id) && specVbOK(len(b.data) - old(b.i) - 1, b.data[old(b.i)+1], b.data[old(b.i)+2], b.data[old(b.i)+3], b.data[old(b.i)+4]) ==> b.err == nil   #C03
+//@     latch sid_cur:: b.err == nil && id == 11 && !haskey(fields, id) ==> b.i == old(b.i) + 1 + specVbWidth(specVbValue(b.data[old(b.i)+1], b.data[old(b.i)+2], b.data[old(b.i)+3], b.data[old(b.i)+4]))   #C03
+//@     latch len_x1f:: b.err == nil && id == 31 && specU16(b.data[old(b.i)+1], b.data[old(b.i)+2]) != 0 ==> len(self.ReasonString()) == int(specU16(b.data[old(b.i)+1], b.data[old(b.i)+2]))   #C03
+//@     latch val_x1f:: b.err == nil && id == 31 && specU16(b.data[old(b.i)+1], b.data[old(b.i)+2]) != 0 ==> forall k in 0..int(specU16(b.data[old(b.i)+1], b.data[old(b.i)+2])): self.ReasonString()[k] == b.data[old(b.i)+3+k]   #C03
+//@     latch nul_x1f:: b.err == nil && id == 31 && specU16(b.data[old(b.i)+1], b.data[old(b.i)+2]) == 0 ==> len(self.ReasonString()) == len(old(self.ReasonString()))   #C03
+//@     latch has_x1f:: id == 31 ==> haskey(fields, id)   #C03
+//@     latch cur_x1f:: b.err == nil && id == 31 && (specU16(b.data[old(b.i)+1], b.data[old(b.i)+2]) != 0 || len(old(self.ReasonString())) == 0) ==> b.i == old(b.i) + 3 + int(specU16(b.data[old(b.i)+1], b.data[old(b.i)+2]))   #C03
+
+//@ func (*Subscribe).UnmarshalBinary
+//@   within (*buffer).getAny loop 0:
+//@     -- a user property (0x26): identifier, two length-prefixed strings (pl1, pl2: their lengths, lets of getAny)
+//@     latch up_cur:: b.err == nil && id == 38 && !haskey(fields, id) ==> b.i == old(b.i) + 5 + pl1 + pl2   #C03
+//@     -- a subscription identifier (0x0b): identifier, variable byte integer; the cursor moves by the minimal width of the value
+//@     latch sid_acc:: id == 11 && !haskey(fields, id) && specVbOK(len(b.data) - old(b.i) - 1, b.data[old(b.i)+1], b.data[old(b.i)+2], b.data[old(b.i)+3], b.data[old(b.i)+4]) ==> b.err == nil   #C03
+//@     latch sid_cur:: b.err == nil && id == 11 && !haskey(fields, id) ==> b.i == old(b.i) + 1 + specVbWidth(specVbValue(b.data[old(b.i)+1], b.data[old(b.i)+2], b.data[old(b.i)+3], b.data[old(b.i)+4]))   #C03
+
+//@ func (*SubAck).UnmarshalBinary
+//@   within (*buffer).getAny loop 0:
+//@     -- a user property (0x26): identifier, two length-prefixed strings (pl1, pl2: their lengths, lets of getAny)
+//@     latch up_cur:: b.err == nil && id == 38 && !haskey(fields, id) ==> b.i == old(b.i) + 5 + pl1 + pl2   #C03
+//@     -- a subscription identifier (0x0b): identifier, variable byte integer; the cursor moves by the minimal width of the value
+//@     latch sid_acc:: id == 11 && !haskey(fields, id) && specVbOK(len(b.data) - old(b.i) - 1, b.data[old(b.i)+1], b.data[old(b.i)+2], b.data[old(b.i)+3], b.data[old(b.i)+4]) ==> b.err == nil   #C03
+//@     latch sid_cur:: b.err == nil && id == 11 && !haskey(fields, id) ==> b.i == old(b.i) + 1 + specVbWidth(specVbValue(b.data[old(b.i)+1], b.data[old(b.i)+2], b.data[old(b.i)+3], b.data[old(b.i)+4]))   #C03
+//@     latch len_x1f:: b.err == nil && id == 31 && specU16(b.data[old(b.i)+1], b.data[old(b.i)+2]) != 0 ==> len(self.ReasonString()) == int(specU16(b.data[old(b.i)+1], b.data[old(b.i)+2]))   #C03
+//@     latch val_x1f:: b.err == nil && id == 31 && specU16(b.data[old(b.i)+1], b.data[old(b.i)+2]) != 0 ==> forall k in 0..int(specU16(b.data[old(b.i)+1], b.data[old(b.i)+2])): self.ReasonString()[k] == b.data[old(b.i)+3+k]   #C03
+//@     latch nul_x1f:: b.err == nil && id == 31 && specU16(b.data[old(b.i)+1], b.data[old(b.i)+2]) == 0 ==> len(self.ReasonString()) == len(old(self.ReasonString()))   #C03
+//@     latch has_x1f:: id == 31 ==> haskey(fields, id)   #C03
+//@     latch cur_x1f:: b.err == nil && id == 31 && (specU16(b.data[old(b.i)+1], b.data[old(b.i)+2]) != 0 || len(old(self.ReasonString())) == 0) ==> b.i == old(b.i) + 3 + int(specU16(b.data[old(b.i)+1], b.data[old(b.i)+2]))   #C03
+
+//@ func (*Unsubscribe).UnmarshalBinary
+//@   within (*buffer).getAny loop 0:
+//@     -- a user property (0x26): identifier, two length-prefixed strings (pl1, pl2: their lengths, lets of getAny)
+//@     latch up_cur:: b.err == nil && id == 38 && !haskey(fields, id) ==> b.i == old(b.i) + 5 + pl1 + pl2   #C03
+//@     -- a subscription identifier (0x0b): identifier, variable byte integer; the cursor moves by the minimal width of the value
+//@     latch sid_acc:: id == 11 && !haskey(fields, id) && specVbOK(len(b.data) - old(b.i) - 1, b.data[old(b.i)+1], b.data[old(b.i)+2], b.data[old(b.i)+3], b.data[old(b.i)+4]) ==> b.err == nil   #C03
+//@     latch sid_cur:: b.err == nil && id == 11 && !haskey(fields, id) ==> b.i == old(b.i) + 1 + specVbWidth(specVbValue(b.data[old(b.i)+1], b.data[old(b.i)+2], b.data[old(b.i)+3], b.data[old(b.i)+4]))   #C03
+
+//@ func (*UnsubAck).UnmarshalBinary
+//@   within (*buffer).getAny loop 0:
+//@     -- a user property (0x26): identifier, two length-prefixed strings (pl1, pl2: their lengths, lets of getAny)
+//@     latch up_cur:: b.err == nil && id == 38 && !haskey(fields, id) ==> b.i == old(b.i) + 5 + pl1 + pl2   #C03
+//@     -- a subscription identifier (0x0b): identifier, variable byte integer; the cursor moves by the minimal width of the value
+//@     latch sid_acc:: id == 11 && !haskey(fields, id) && specVbOK(len(b.data) - old(b.i) - 1, b.data[old(b.i)+1], b.data[old(b.i)+2], b.data[old(b.i)+3], b.data[old(b.i)+4]) ==> b.err == nil   #C03
+//@     latch sid_cur:: b.err == nil && id == 11 && !haskey(fields, id) ==> b.i == old(b.i) + 1 + specVbWidth(specVbValue(b.data[old(b.i)+1], b.data[old(b.i)+2], b.data[old(b.i)+3], b.data[old(b.i)+4]))   #C03
+//@     latch len_x1f:: b.err == nil && id == 31 && specU16(b.data[old(b.i)+1], b.data[old(b.i)+2]) != 0 ==> len(self.ReasonString()) == int(specU16(b.data[old(b.i)+1], b.data[old(b.i)+2]))   #C03
+//@     latch val_x1f:: b.err == nil && id == 31 && specU16(b.data[old(b.i)+1], b.data[old(b.i)+2]) != 0 ==> forall k in 0..int(specU16(b.data[old(b.i)+1], b.data[old(b.i)+2])): self.ReasonString()[k] == b.data[old(b.i)+3+k]   #C03
+//@     latch nul_x1f:: b.err == nil && id == 31 && specU16(b.data[old(b.i)+1], b.data[old(b.i)+2]) == 0 ==> len(self.ReasonString()) == len(old(self.ReasonString()))   #C03
+//@     latch has_x1f:: id == 31 ==> haskey(fields, id)   #C03
+//@     latch cur_x1f:: b.err == nil && id == 31 && (specU16(b.data[old(b.i)+1], b.data[old(b.i)+2]) != 0 || len(old(self.ReasonString())) == 0) ==> b.i == old(b.i) + 3 + int(specU16(b.data[old(b.i)+1], b.data[old(b.i)+2]))   #C03
+
+//@ func (*Disconnect).UnmarshalBinary
+//@   within (*buffer).getAny loop 0:
+//@     -- a user property (0x26): identifier, two length-prefixed strings (pl1, pl2: their lengths, lets of getAny)
+//@     latch up_cur:: b.err == nil && id == 38 && !haskey(fields, id) ==> b.i == old(b.i) + 5 + pl1 + pl2   #C03
+//@     -- a subscription identifier (0x0b): identifier, variable byte integer; the cursor moves by the minimal width of the value
+//@     latch sid_acc:: id == 11 && !haskey(fields, id) && specVbOK(len(b.data) - old(b.i) - 1, b.data[old(b.i)+1], b.data[old(b.i)+2], b.data[old(b.i)+3], b.data[old(b.i)+4]) ==> b.err == nil   #C03
+//@     latch sid_cur:: b.err == nil && id == 11 && !haskey(fields, id) ==> b.i == old(b.i) + 1 + specVbWidth(specVbValue(b.data[old(b.i)+1], b.data[old(b.i)+2], b.data[old(b.i)+3], b.data[old(b.i)+4]))   #C03
+//@     latch has_x11:: id == 17 ==> haskey(fields, id)   #C03
+//@     latch cur_x11:: b.err == nil && id == 17 ==> b.i == old(b.i) + 5   #C03
+//@     latch acc_x11:: id == 17 && old(b.i) + 5 <= len(b.data) ==> b.err == nil   #C03
+//@     latch has_x1f:: id == 31 ==> haskey(fields, id)   #C03
+//@     latch has_x1c:: id == 28 ==> haskey(fields, id)   #C03
+
+//@ func (*Auth).UnmarshalBinary
+//@   within (*buffer).getAny loop 0:
+//@     -- a user property (0x26): identifier, two length-prefixed strings (pl1, pl2: their lengths, lets of getAny)
+//@     latch up_cur:: b.err == nil && id == 38 && !haskey(fields, id) ==> b.i == old(b.i) + 5 + pl1 + pl2   #C03
+//@     -- a subscription identifier (0x0b): identifier, variable byte integer; the cursor moves by the minimal width of the value
+//@     latch sid_acc:: id == 11 && !haskey(fields, id) && specVbOK(len(b.data) - old(b.i) - 1, b.data[old(b.i)+1], b.data[old(b.i)+2], b.data[old(b.i)+3], b.data[old(b.i)+4]) ==> b.err == nil   #C03
+//@     latch sid_cur:: b.err == nil && id == 11 && !haskey(fields, id) ==> b.i == old(b.i) + 1 + specVbWidth(specVbValue(b.data[old(b.i)+1], b.data[old(b.i)+2], b.data[old(b.i)+3], b.data[old(b.i)+4]))   #C03
+//@     latch len_x15:: b.err == nil && id == 21 && specU16(b.data[old(b.i)+1], b.data[old(b.i)+2]) != 0 ==> len(self.AuthMethod()) == int(specU16(b.data[old(b.i)+1], b.data[old(b.i)+2]))   #C03
+//@     latch val_x15:: b.err == nil && id == 21 && specU16(b.data[old(b.i)+1], b.data[old(b.i)+2]) != 0 ==> forall k in 0..int(specU16(b.data[old(b.i)+1], b.data[old(b.i)+2])): self.AuthMethod()[k] == b.data[old(b.i)+3+k]   #C03
+//@     latch nul_x15:: b.err == nil && id == 21 && specU16(b.data[old(b.i)+1], b.data[old(b.i)+2]) == 0 ==> len(self.AuthMethod()) == len(old(self.AuthMethod()))   #C03
+//@     latch has_x15:: id == 21 ==> haskey(fields, id)   #C03
+//@     latch cur_x15:: b.err == nil && id == 21 && (specU16(b.data[old(b.i)+1], b.data[old(b.i)+2]) != 0 || len(old(self.AuthMethod())) == 0) ==> b.i == old(b.i) + 3 + int(specU16(b.data[old(b.i)+1], b.data[old(b.i)+2]))   #C03
+//@     latch len_x16:: b.err == nil && id == 22 && specU16(b.data[old(b.i)+1], b.data[old(b.i)+2]) != 0 ==> len(self.AuthData()) == int(specU16(b.data[old(b.i)+1], b.data[old(b.i)+2]))   #C03
+//@     latch val_x16:: b.err == nil && id == 22 && specU16(b.data[old(b.i)+1], b.data[old(b.i)+2]) != 0 ==> forall k in 0..int(specU16(b.data[old(b.i)+1], b.data[old(b.i)+2])): self.AuthData()[k] == b.data[old(b.i)+3+k]   #C03
+//@     latch nul_x16:: b.err == nil && id == 22 && specU16(b.data[old(b.i)+1], b.data[old(b.i)+2]) == 0 ==> len(self.AuthData()) == len(old(self.AuthData()))   #C03
+//@     latch has_x16:: id == 22 ==> haskey(fields, id)   #C03
+//@     latch cur_x16:: b.err == nil && id == 22 && (specU16(b.data[old(b.i)+1], b.data[old(b.i)+2]) != 0 || len(old(self.AuthData())) == 0) ==> b.i == old(b.i) + 3 + int(specU16(b.data[old(b.i)+1], b.data[old(b.i)+2]))   #C03
+//@     latch len_x1f:: b.err == nil && id == 31 && specU16(b.data[old(b.i)+1], b.data[old(b.i)+2]) != 0 ==> len(self.ReasonString()) == int(specU16(b.data[old(b.i)+1], b.data[old(b.i)+2]))   #C03
+//@     latch val_x1f:: b.err == nil && id == 31 && specU16(b.data[old(b.i)+1], b.data[old(b.i)+2]) != 0 ==> forall k in 0..int(specU16(b.data[old(b.i)+1], b.data[old(b.i)+2])): self.ReasonString()[k] == b.data[old(b.i)+3+k]   #C03
+//@     latch nul_x1f:: b.err == nil && id == 31 && specU16(b.data[old(b.i)+1], b.data[old(b.i)+2]) == 0 ==> len(self.ReasonString()) == len(old(self.ReasonString()))   #C03
+//@     latch has_x1f:: id == 31 ==> haskey(fields, id)   #C03
+//@     latch cur_x1f:: b.err == nil && id == 31 && (specU16(b.data[old(b.i)+1], b.data[old(b.i)+2]) != 0 || len(old(self.ReasonString())) == 0) ==> b.i == old(b.i) + 3 + int(specU16(b.data[old(b.i)+1], b.data[old(b.i)+2]))   #C03
+
+// END generated by /verif/gen_c03.py
